@@ -252,11 +252,11 @@ func uniq(s []string) []string {
 }
 
 type comparer struct {
-	c     *worldCase
-	class string
+	c       *worldCase
+	class   string
 	out     []mismatch
 	persist map[string]int // section+what -> last step at which it was seen
-	stop    bool // the real world's state diverged from the specification: later steps are meaningless
+	stop    bool           // the real world's state diverged from the specification: later steps are meaningless
 }
 
 func (cm *comparer) add(stepNo int, section, what, msg string) {
